@@ -28,10 +28,11 @@ const sigRetryOrder = "C09/retry-of-failed-index-flush-persists-forward-entries-
 // second pass. A process that dies in between recovers a forward index that knows series id s of
 // the metric while the postings end at s-1: the next new series of the metric is given id s, the
 // id under which the recovered forward / inverted index stores the tags of another series.
-// Listed in known_findings.json = not repaired (then TestFaultHistory takes no crash image while
-// the retry of an index flush that failed in the postings family is open, and this reproduction
-// only prints the KNOWN-FINDING line).
-// proposed_fix_retry_of_failed_index_flush_keeps_the_store_order.diff repairs it.
+// Repaired in /repo (fix: retry of a failed index flush writes forward/inverted entries of new
+// series before their postings; = proposed_fix_retry_of_failed_index_flush_keeps_the_store_order.diff).
+// If the signature is listed in known_findings.json as not repaired, TestFaultHistory takes no
+// crash image while the retry of an index flush that failed in the postings family is open, and
+// this reproduction only prints the KNOWN-FINDING line.
 func TestRegression_RetryOfFailedIndexFlushWritesForwardEntriesBeforePostings(t *testing.T) {
 	if ev.Known(sigRetryOrder) {
 		ev.KnownFinding("C09", "retry of an index flush that failed in the postings family persists forward/inverted entries of newer series before their postings; after a crash in between a new series gets the id of those entries ("+sigRetryOrder+")")
